@@ -33,8 +33,9 @@ ASSUMPTIONS = ["pointer strings and member names are C strings (no 0 byte); the 
 SLOT_LIMIT = 1 << 21          # harness/drv_ptr.c: PTR_ALLOC_LIMIT / sizeof(void *)
 
 # ------------------------------------------------------------------ RFC 6901, from the RFC
-# `defects` is empty for the oracle.  The four switches reproduce the recorded deviations of
-# json_pointer.c one at a time and are used ONLY to give a failure its stable class id.
+# `defects` is empty for the oracle.  The four switches reproduce the deviations the original
+# json_pointer.c had (repaired since; known_findings.json, status fixed) one at a time and are
+# used ONLY to give a regression its stable class id.
 CLASSES = [("null", "get_null_target"), ("empty", "empty_index_token"),
            ("rawlast", "set_last_token_not_unescaped"), ("lenient", "invalid_escape_accepted")]
 HUGE = object()
@@ -485,7 +486,7 @@ def gen_value(rng):
 
 
 WITNESSES = [
-    # (tree, ops) — the recorded deviations, each the first failure of its line
+    # (tree, ops) — the inputs of the four repaired deviations (regression cases)
     (("o", [(b"a", [None])]), [("g", b"/a/0", None)]),                                   # get_null_target
     ([None, ("i", 1)], [("G", b"/0", None)]),
     (("o", [(b"a", [("i", 7)])]), [("g", b"/a/", None)]),                                # empty_index_token
@@ -596,15 +597,17 @@ def search(rng, broken_lines):
 
 
 LEVEL_TEXT = ("Machine-checked (Coq, no axioms): a Gallina model that follows json_pointer.c statement by statement (in-place '~1'-then-'~0' "
-              "replacement, is_valid_index with its fast path / leading-zero test / strtoull saturation, the recursive walk, the raw last token "
-              "of set, errno values) is compared with an independent RFC 6901 evaluator.  Proved for all byte strings: two-pass unescaping = "
-              "single-pass unescaping.  Proved for all trees and all pointer strings under explicit decidable guards: lookup = RFC evaluation "
-              "and returns the node at the reported location, errors are ENOENT/EINVAL, set = RFC placement, set changes no other location "
-              "(frame, unguarded), a following lookup returns the value set, the printf variants equal the plain ones.  Each guard is shown "
-              "necessary by a refuted-theorem with a computed witness (null array element, empty index token, raw last token of set, "
-              "unchecked '~' escapes).  The model is tied to json_pointer.c on every run by differential execution of the extracted model "
-              "and the ASan/UBSan build; the Python RFC 6901 oracle judges the implementation independently of the model.")
+              "replacement, is_valid_escaping, is_valid_index with its fast path / empty-token / leading-zero tests / strtoull saturation, the "
+              "recursive walk, the unescaped last token of set, errno values) is compared with an independent RFC 6901 evaluator.  Proved for "
+              "all byte strings: two-pass unescaping = single-pass unescaping; is_valid_escaping = the RFC token syntax.  Proved for all trees and "
+              "all pointer strings at full strength: lookup = RFC evaluation (same location, same node, JSON null members and elements "
+              "included) and returns the node at the reported location, errors are ENOENT/EINVAL, set = RFC placement, set changes no other "
+              "location (frame), a following lookup returns the value set, the printf variants equal the plain ones.  The four deviations of "
+              "the original code were repaired in /repo (fix: commits) and their witnesses are now positive examples.  The model is tied to "
+              "json_pointer.c on every run by differential execution of the extracted model and the ASan/UBSan build; the Python RFC 6901 "
+              "oracle judges the implementation independently of the model.")
 LEVEL_NOTE = ("Trusted: Coq kernel; extraction + OCaml glue; harness; vasprintf; the Python oracle.  The theorems are about the Gallina model; "
-              "the C code is tied to it only by the checked correspondence (sampled trees and pointers, not all).  The full-strength "
-              "statements get_conforms / set_places_exactly / set_then_get are REFUTED for the current code; the proved versions carry the "
-              "guards that exclude exactly the four recorded defect sites.  Allocation failure inside object insertion is not modelled.")
+              "the C code is tied to it only by the checked correspondence (sampled trees and pointers, not all).  Side conditions of the "
+              "theorems: the tree given to get is not the NULL pointer (API domain); arrays on the walk are no longer than SIZE_MAX "
+              "(representation bound); '-' appends and is never a lookup target.  Allocation failure inside object insertion / the key copy "
+              "of set is not modelled (C08).")
